@@ -120,7 +120,11 @@ def _sig_unknown_reporter_loader_name(w):
     defined = any(case['name'] in [n for n, _ in (lay or [])] for lay in case['layers'].values())
     if defined or case['name'] in case['core']:
         return False
-    return case['cat'] == 'loader' or (case['cat'] == 'reporter' and case['where'] in ('config', 'dodo'))
+    impl = w.get('impl') or {}
+    if 'KeyError' not in str(impl.get('exc')):
+        return False
+    return ((case['cat'] == 'loader' and impl.get('pick') == 'escapes') or
+            (case['cat'] == 'reporter' and case['where'] in ('config', 'dodo') and impl.get('pick') == 'traceback3'))
 
 
 SIGNATURES = {'var-word-steals-option-value': _sig_var_word_steals_option_value,
